@@ -469,6 +469,8 @@ impl Monitor for C06 {
             ("class:new_accept", 50),
             ("class:new_reject", 50),
             ("class:sizes_up_to_40", 200),
+            ("class:tables_of_more_than_256_entries", 100),
+            ("class:sparse_identifications_over_a_large_codomain", 50),
             ("class:long_identification_chain_on_a_thread_stack", 6),
             ("outcome:compose_Some", 100),
             ("outcome:compose_None", 100),
@@ -539,12 +541,32 @@ impl Monitor for C06 {
             }
             3..=5 => {
                 // (table, target); one case in eight has sizes / values up to 40 (blocks longer than 16)
-                let f = if r.chance(1, 8) { ctx.class("sizes_up_to_40"); gen_f(r, 8, 40) } else { gen_f(r, 8, 6) };
+                let f = if r.chance(1, 300) {
+                    // tables of several hundred to more than a thousand entries (block-wise implementations)
+                    ctx.class("tables_of_more_than_256_entries");
+                    let n = r.range(257, 1300);
+                    let t = if r.chance(1, 2) { r.range(n, n + 40) } else { r.range(1, 40) };
+                    let mut table = if t >= n && r.chance(1, 2) { r.perm(t)[..n].to_vec() } else { r.vec_below(n, t) };
+                    if t >= n && r.chance(1, 2) {
+                        // injective except for one collision between the last entry and an early one
+                        let k = r.below(n / 2);
+                        table[n - 1] = table[k];
+                    }
+                    (table, t)
+                } else if r.chance(1, 8) { ctx.class("sizes_up_to_40"); gen_f(r, 8, 40) } else { gen_f(r, 8, 6) };
                 self.single(ctx, &f, r);
             }
             6 => self.constructors(ctx, r),
             _ => {
-                if r.chance(1, 4000) || (ctx.thorough && r.chance(1, 400)) {
+                if r.chance(1, 300) {
+                    // few identifications over a codomain of more than a thousand points
+                    let b = r.range(1024, 3000);
+                    let k = r.range(1, b / 8);
+                    let f: F = (r.vec_below(k, b), b);
+                    let g: F = (r.vec_below(k, b), b);
+                    ctx.class("sparse_identifications_over_a_large_codomain");
+                    self.pair(ctx, &f, &g);
+                } else if r.chance(1, 4000) || (ctx.thorough && r.chance(1, 400)) {
                     // deep identification trees: 2^k points merged in tournament order
                     let k = 9 + r.below(3) as u32;
                     let (n, pairs) = crate::gen::tournament_pairs(r, k);
